@@ -161,6 +161,12 @@ impl Report {
         let e = g.violations.entry(v.identity.clone()).or_insert((0, v));
         e.0 += n;
     }
+    /// like `violation`, but reports a poisoned lock instead of panicking (used after an explorer panic)
+    pub fn try_violation(&self, v: Violation) -> Result<(), ()> {
+        if self.inner.is_poisoned() { return Err(()); }
+        self.violation(v);
+        Ok(())
+    }
     pub fn violation_count(&self) -> u64 {
         self.inner
             .lock()
